@@ -399,6 +399,17 @@ func (n *Node) KnownTx(h wire.Hash) *wire.MsgTx {
 	return nil
 }
 
+// DrainPool empties the process-wide memory pool (kept empty by design, see DESIGN 2.2) and
+// reports how many transactions it held; used after API calls that may hand it a transaction.
+func DrainPool() int {
+	n := 0
+	for _, d := range sharedPool.TxDescs() {
+		sharedPool.RemoveTransaction(d.Tx, true)
+		n++
+	}
+	return n
+}
+
 // Server is the masswallet.Server view of this node.
 type Server struct{ N *Node }
 
